@@ -1294,21 +1294,22 @@ impl<'a> Walk<'a> {
             return;
         }
         let Some(o) = self.m.obj(id) else { return };
-        // counts through this very handle
+        // counts through this very handle (after a caught panic only the objects that existed then may be affected by it)
+        let deg = self.degraded && id < wd.fault_obj_mark.get();
         bump(&wd.stats.count_checks);
         let sc = cc.strong_count();
         let (hmin, hmax) = self.m.holders(id);
         let extra = wd.releasing.borrow().iter().filter(|x| **x == id).count() as u32;
-        let bad = if self.degraded { sc < hmin } else { sc < hmin || sc > hmax + extra };
+        let bad = if deg { sc < hmin } else { sc < hmin || sc > hmax + extra };
         if bad {
-            wd.err("C04", "strong_count", format!("strong_count_{}", if sc < hmin { "low" } else { "high" }), format!("{}: strong_count() of #{} = {} but {}..{} Cc pointers exist{}", via, id, sc, hmin, hmax + extra, if self.degraded { " (after a caught panic: too low is the violation)" } else { "" }));
+            wd.err("C04", "strong_count", format!("strong_count_{}", if sc < hmin { "low" } else { "high" }), format!("{}: strong_count() of #{} = {} but {}..{} Cc pointers exist{}", via, id, sc, hmin, hmax + extra, if deg { " (after a caught panic: too low is the violation)" } else { "" }));
         }
         #[cfg(feature = "weak-ptrs")]
         {
             bump(&wd.stats.weak_count_checks);
             let wc = cc.weak_count();
             let (wmin, wmax) = self.m.weak_holders(id);
-            let bad = if self.degraded { wc < wmin } else { wc < wmin || wc > wmax };
+            let bad = if deg { wc < wmin } else { wc < wmin || wc > wmax };
             if bad {
                 wd.err("C09", "weak_count", format!("cc_weak_count_{}", if wc < wmin { "low" } else { "high" }), format!("{}: Cc::weak_count() of #{} = {} but {}..{} Weak pointers exist", via, id, wc, wmin, wmax));
             }
@@ -1316,7 +1317,7 @@ impl<'a> Walk<'a> {
         #[cfg(feature = "finalization")]
         {
             let af = cc.already_finalized();
-            if af == o.armed && !self.degraded {
+            if af == o.armed && !deg {
                 wd.err("C05", "already_finalized", format!("already_finalized_{}", af), format!("{}: already_finalized() of #{} = {} but it was finalized {} times (re-armed: {}, created in a finalizer: {})", via, id, af, o.fin_count, o.armed, o.born_in_finalizer));
             }
         }
@@ -1386,8 +1387,9 @@ impl<'a> Walk<'a> {
             }
             WT::To(id) => {
                 let Some(o) = self.m.obj(id) else { return };
+                let deg = self.degraded && id < wd.fault_obj_mark.get();
                 let (wmin, wmax) = self.m.weak_holders(id);
-                let bad = if self.degraded { wc < wmin } else { wc < wmin || wc > wmax };
+                let bad = if deg { wc < wmin } else { wc < wmin || wc > wmax };
                 if bad {
                     wd.err("C09", "weak_count", format!("weak_weak_count_{}", if wc < wmin { "low" } else { "high" }), format!("{}: Weak::weak_count() for #{} = {} but {}..{} Weak pointers exist (value {:?}, box live {})", via, id, wc, wmin, wmax, o.val, o.box_live));
                 }
@@ -1398,7 +1400,7 @@ impl<'a> Walk<'a> {
                     Val::Alive => {
                         let (hmin, hmax) = self.m.holders(id);
                         let extra = wd.releasing.borrow().iter().filter(|x| **x == id).count() as u32;
-                        let bad = if self.degraded { false } else { sc < hmin || sc > hmax + extra };
+                        let bad = if deg { false } else { sc < hmin || sc > hmax + extra };
                         if bad {
                             wd.err("C09", "weak_strong_count", format!("weak_strong_count_{}", if sc < hmin { "low" } else { "high" }), format!("{}: Weak::strong_count() for live #{} = {} but {}..{} Cc pointers exist", via, id, sc, hmin, hmax + extra));
                         }
